@@ -16,13 +16,105 @@ theorem Cls.rank_lt_8 (c : Cls) : c.rank < 8 := by cases c <;> decide
 theorem Cls.rank_injective : ∀ a b : Cls, a.rank = b.rank → a = b := by
   intro a b; cases a <;> cases b <;> simp [Cls.rank]
 
+/-! ## the lexicographic order on concrete locks -/
+
+theorem Lock.lt_irrefl (a : Lock) : ¬ Lock.lt a a := by
+  unfold Lock.lt; omega
+
+theorem Lock.lt_trans {a b c : Lock} (h1 : Lock.lt a b) (h2 : Lock.lt b c) : Lock.lt a c := by
+  unfold Lock.lt at *; omega
+
+theorem Lock.lt_asymm {a b : Lock} (h1 : Lock.lt a b) (h2 : Lock.lt b a) : False := by
+  unfold Lock.lt at *; omega
+
+/-- the order is total on locks: two locks that are not comparable are the same lock -/
+theorem Lock.lt_total (a b : Lock) : Lock.lt a b ∨ a = b ∨ Lock.lt b a := by
+  unfold Lock.lt
+  by_cases h : a.cls.rank = b.cls.rank
+  · have hc := Cls.rank_injective _ _ h
+    by_cases hi : a.inst = b.inst
+    · right; left
+      cases a; cases b; simp only at hc hi; subst hc; subst hi; rfl
+    · omega
+  · omega
+
+/-- an upper bound of the instance indices the threads of a list are acquiring -/
+def maxWant : List Thread → Nat
+  | [] => 0
+  | t :: ts => max t.want (maxWant ts)
+
+theorem le_maxWant {ts : List Thread} {t : Thread} (h : t ∈ ts) : t.want ≤ maxWant ts := by
+  induction ts with
+  | nil => cases h
+  | cons x xs ih =>
+    simp only [maxWant]
+    rcases List.mem_cons.mp h with rfl | h
+    · omega
+    · have := ih h; omega
+
+/-! ## the discipline depends only on the multiset of held classes -/
+
+theorem all_perm {α : Type} {l1 l2 : List α} (p : α → Bool) (h : List.Perm l1 l2) : l1.all p = l2.all p := by
+  rw [Bool.eq_iff_iff, List.all_eq_true, List.all_eq_true]
+  constructor
+  · intro H x hx; exact H x (h.mem_iff.mpr hx)
+  · intro H x hx; exact H x (h.mem_iff.mp hx)
+
+theorem okFrom_perm : ∀ (p : List Op) (h1 h2 : List Cls), List.Perm h1 h2 → okFrom h1 p = okFrom h2 p := by
+  intro p
+  induction p with
+  | nil => intro h1 h2 _; rfl
+  | cons op rest ih =>
+    intro h1 h2 hp
+    cases op with
+    | acq c => simp only [okFrom]; rw [all_perm _ hp, ih _ _ (hp.cons c)]
+    | acqUp c => simp only [okFrom]; rw [all_perm _ hp, ih _ _ (hp.cons c)]
+    | rel c => simp only [okFrom]; rw [hp.contains_eq, ih _ _ (hp.erase c)]
+    | send q => simp only [okFrom]; rw [hp.isEmpty_eq, ih _ _ hp]
+    | recv q => simp only [okFrom]; rw [hp.isEmpty_eq, ih _ _ hp]
+    | trySend q => simp only [okFrom]; rw [ih _ _ hp]
+
+theorem heldAfter_perm : ∀ (p : List Op) (h1 h2 : List Cls), List.Perm h1 h2 →
+    List.Perm (heldAfter h1 p) (heldAfter h2 p) := by
+  intro p
+  induction p with
+  | nil => intro h1 h2 hp; exact hp
+  | cons op rest ih =>
+    intro h1 h2 hp
+    cases op with
+    | acq c => exact ih _ _ (hp.cons c)
+    | acqUp c => exact ih _ _ (hp.cons c)
+    | rel c => exact ih _ _ (hp.erase c)
+    | send q => exact ih _ _ hp
+    | recv q => exact ih _ _ hp
+    | trySend q => exact ih _ _ hp
+
+/-- erasing a held lock erases (up to order) its class from the list of held classes -/
+theorem map_cls_erase_perm {held : List Lock} {x : Lock} (hx : x ∈ held) :
+    List.Perm ((held.erase x).map (·.cls)) ((held.map (·.cls)).erase x.cls) := by
+  have h1 : List.Perm (held.map (·.cls)) (x.cls :: (held.erase x).map (·.cls)) :=
+    (List.perm_cons_erase hx).map (·.cls)
+  have hmem : x.cls ∈ held.map (·.cls) := List.mem_map.mpr ⟨x, hx, rfl⟩
+  have h2 : List.Perm (held.map (·.cls)) (x.cls :: (held.map (·.cls)).erase x.cls) := List.perm_cons_erase hmem
+  exact (h1.symm.trans h2).cons_inv
+
 /-! ## small-step semantics -/
 
-/-- what a thread holds after performing `op` -/
-def heldStep : List Cls → Op → List Cls
+/-- what a thread holds, as classes, after performing `op` (what `okFrom` / `heldAfter` compute) -/
+def clsStep : List Cls → Op → List Cls
   | h, .acq c => c :: h
+  | h, .acqUp c => c :: h
   | h, .rel c => h.erase c
   | h, _ => h
+
+/-- The locks a thread holds after performing `op`: an acquire (`acq c` / `acqUp c`) takes the lock `⟨c, want⟩`
+    the thread was acquiring; `rel c` lets go of the held lock `⟨c, inst⟩` (`inst` is chosen by the environment;
+    `none` if the thread does not hold that lock); channel operations change nothing. -/
+def heldStep (held : List Lock) (want inst : Nat) : Op → Option (List Lock)
+  | .acq c => some (⟨c, want⟩ :: held)
+  | .acqUp c => some (⟨c, want⟩ :: held)
+  | .rel c => if (⟨c, inst⟩ : Lock) ∈ held then some (held.erase ⟨c, inst⟩) else none
+  | _ => some held
 
 /-- the channel lengths after some thread performed `op` -/
 def lenStep (S : Sys) : Op → Chan → Nat
@@ -32,35 +124,41 @@ def lenStep (S : Sys) : Op → Chan → Nat
   | _ => S.len
 
 /-- Small-step semantics: thread `i` performs the first operation of its `todo`
-    (`none` if thread `i` does not exist or has nothing to do). The caller only steps a thread that is
-    not blocked, see `BlockedSpec`.
-    `acq c`: `held := c :: held`; `rel c`: `held := held.erase c`; `send q`: `len q := len q + 1`;
+    (`none` if thread `i` does not exist, has nothing to do, or is asked to release a lock it does not hold).
+    The caller only steps a thread that is not blocked, see `BlockedSpec`.
+    `acq c` / `acqUp c`: `held := ⟨c, want⟩ :: held`; `rel c`: `held := held.erase ⟨c, inst⟩` (the environment
+    says which instance of class `c` is released); `send q`: `len q := len q + 1`;
     `trySend q`: `len q := if len q < cap q then len q + 1 else len q`; `recv q`: `len q := len q - 1`;
-    in every case `todo := todo.tail`. -/
-def stepThread (S : Sys) (i : Nat) : Option Sys :=
+    in every case `todo := todo.tail` and `want := next` (the environment announces the instance index of the
+    thread's next acquisition; it must respect the upward rule, see `upOk` and `C18_wf_preserved`). -/
+def stepThread (S : Sys) (i : Nat) (inst : Nat) (next : Nat) : Option Sys :=
   match S.threads[i]? with
   | none => none
   | some t =>
     match t.todo with
     | [] => none
     | op :: rest =>
-      some { threads := S.threads.set i { held := heldStep t.held op, todo := rest, consumerOf := t.consumerOf }
-             len := lenStep S op
-             cap := S.cap }
+      match heldStep t.held t.want inst op with
+      | none => none
+      | some h' =>
+        some { threads := S.threads.set i { held := h', todo := rest, want := next, consumerOf := t.consumerOf }
+               len := lenStep S op
+               cap := S.cap }
 
-/-- a schedule: the list of the threads that move, in order -/
-def run (S : Sys) : List Nat → Option Sys
+/-- a schedule: the list of the threads that move, in order, each with the environment's two choices
+    (thread, instance released if the step is a `rel`, instance announced for the next acquisition) -/
+def run (S : Sys) : List (Nat × Nat × Nat) → Option Sys
   | [] => some S
-  | i :: rest => (stepThread S i).bind (fun S1 => run S1 rest)
+  | a :: rest => (stepThread S a.1 a.2.1 a.2.2).bind (fun S1 => run S1 rest)
 
 /-- Which threads the lock / channel implementation may keep waiting. `blocked` is a PARAMETER of the
     deadlock theorem, constrained only by these facts about blocking primitives. -/
 structure BlockedSpec (S : Sys) (blocked : Nat → Prop) : Prop where
-  /-- a thread kept waiting at `acq c`: some OTHER thread currently holds a lock of class `c` (this covers
-      reader/writer locks with writer preference: a reader kept waiting by a queued writer still has a
-      holder in front of both) -/
-  acq_has_holder : ∀ i t c rest, S.threads[i]? = some t → t.todo = .acq c :: rest → blocked i →
-    ∃ j u, j ≠ i ∧ S.threads[j]? = some u ∧ c ∈ u.held
+  /-- a thread kept waiting at `acq c` or `acqUp c`: some OTHER thread currently holds exactly the lock instance
+      `⟨c, want⟩` it is acquiring (this covers reader/writer locks with writer preference: a reader kept waiting
+      by a queued writer still has a holder in front of both). `acqUp` is never "free": it blocks like `acq`. -/
+  acq_has_holder : ∀ i t c rest, S.threads[i]? = some t → (t.todo = .acq c :: rest ∨ t.todo = .acqUp c :: rest) →
+    blocked i → ∃ j u, j ≠ i ∧ S.threads[j]? = some u ∧ (⟨c, t.want⟩ : Lock) ∈ u.held
   /-- a blocking send waits only on a full queue -/
   send_full : ∀ i t q rest, S.threads[i]? = some t → t.todo = .send q :: rest → blocked i → S.len q ≥ S.cap q
   /-- a blocking receive waits only on an empty queue -/
@@ -69,7 +167,8 @@ structure BlockedSpec (S : Sys) (blocked : Nat → Prop) : Prop where
   try_free : ∀ i t q rest, S.threads[i]? = some t → t.todo = .trySend q :: rest → ¬ blocked i
   idle_free : ∀ i t, S.threads[i]? = some t → t.todo = [] → ¬ blocked i
 
-/-- Well-formed system. -/
+/-- Well-formed system. (No condition of the kind "a lock has at most one holder" is needed: the argument only
+    follows ONE holder of the wanted lock, and read locks do have several holders.) -/
 structure WF (S : Sys) : Prop where
   /-- every thread keeps the static discipline for the rest of its program -/
   ok : ∀ t ∈ S.threads, t.ok = true
@@ -80,13 +179,14 @@ structure WF (S : Sys) : Prop where
     t.todo = .send q :: rest →
     ∃ (j : Nat) (u : Thread), S.threads[j]? = some u ∧ u.consumerOf = some q ∧ u.todo ≠ []
 
-/-- Every thread's remaining program releases everything it holds and will acquire (what `programsOk`
-    checks with `heldAfter [] p = []` for whole programs). `Thread.ok` alone is NOT preserved by steps:
-    its clause `todo = [] → held = []` is not inductive (`{held := [], todo := [acq wu]}` is `ok`, its
-    successor `{held := [wu], todo := []}` is not); `Thread.ok` together with `Balanced` is. -/
-def Balanced (S : Sys) : Prop := ∀ t ∈ S.threads, heldAfter t.held t.todo = []
-
 /-! ## what `Thread.ok` says -/
+
+/-- the upward clause of `Thread.ok`: an upward acquire at the head of `todo` goes to an instance above every held
+    instance of its class -/
+def upOk (held : List Lock) (want : Nat) (todo : List Op) : Bool :=
+  match todo with
+  | .acqUp c :: _ => held.all (fun h => h.cls != c || decide (h.inst < want))
+  | _ => true
 
 /-- the consumer clause of `Thread.ok` -/
 def consOk (c : Option Chan) (todo : List Op) : Bool :=
@@ -95,12 +195,32 @@ def consOk (c : Option Chan) (todo : List Op) : Bool :=
   | none => todo.all (fun op => match op with | .recv _ => false | _ => true)
 
 theorem Thread.ok_iff (t : Thread) :
-    t.ok = true ↔ okFrom t.held t.todo = true ∧ consOk t.consumerOf t.todo = true ∧ (t.todo = [] → t.held = []) := by
-  have h3 : (!t.todo.isEmpty || t.held.isEmpty) = true ↔ (t.todo = [] → t.held = []) := by
-    cases t.todo <;> cases t.held <;> simp
+    t.ok = true ↔ okFrom (t.held.map (·.cls)) t.todo = true ∧ upOk t.held t.want t.todo = true ∧
+      consOk t.consumerOf t.todo = true ∧ heldAfter (t.held.map (·.cls)) t.todo = [] := by
   unfold Thread.ok
-  rw [Bool.and_eq_true, Bool.and_eq_true, h3, and_assoc]
+  rw [Bool.and_eq_true, Bool.and_eq_true, Bool.and_eq_true, List.isEmpty_iff, and_assoc, and_assoc]
   exact Iff.rfl
+
+theorem upOk_iff {held : List Lock} {want : Nat} {todo : List Op} :
+    upOk held want todo = true ↔ ∀ c rest, todo = .acqUp c :: rest → ∀ h ∈ held, h.cls = c → h.inst < want := by
+  unfold upOk
+  split
+  · rename_i c r
+    simp only [List.all_eq_true, Bool.or_eq_true, bne_iff_ne, ne_eq, decide_eq_true_eq]
+    constructor
+    · intro H c' rest heq h hh hc
+      cases heq
+      rcases H h hh with h1 | h1
+      · exact absurd hc h1
+      · exact h1
+    · intro H h hh
+      by_cases hc : h.cls = c
+      · exact Or.inr (H c r rfl h hh hc)
+      · exact Or.inl hc
+  · rename_i hne
+    simp only [true_iff]
+    intro c rest heq
+    exact absurd heq (hne c rest)
 
 theorem consOk_tail {c : Option Chan} {op : Op} {rest : List Op} (h : consOk c (op :: rest) = true) :
     consOk c rest = true := by
@@ -108,30 +228,88 @@ theorem consOk_tail {c : Option Chan} {op : Op} {rest : List Op} (h : consOk c (
   cases c <;> simp only [List.all_cons, Bool.and_eq_true] at h <;> exact h.2
 
 theorem okFrom_step {held : List Cls} {op : Op} {rest : List Op} (h : okFrom held (op :: rest) = true) :
-    okFrom (heldStep held op) rest = true := by
+    okFrom (clsStep held op) rest = true := by
   cases op <;> simp only [okFrom, Bool.and_eq_true] at h <;> first | exact h.2 | exact h
 
 theorem heldAfter_step (held : List Cls) (op : Op) (rest : List Op) :
-    heldAfter held (op :: rest) = heldAfter (heldStep held op) rest := by
+    heldAfter held (op :: rest) = heldAfter (clsStep held op) rest := by
   cases op <;> rfl
 
-theorem Thread.ok_nil {t : Thread} (h : t.ok = true) (hn : t.todo = []) : t.held = [] :=
-  ((Thread.ok_iff t).mp h).2.2 hn
+/-- the classes held after a step of the concrete semantics are (up to order) those of the class-level step -/
+theorem heldStep_perm {held h' : List Lock} {want inst : Nat} {op : Op} (h : heldStep held want inst op = some h') :
+    List.Perm (h'.map (·.cls)) (clsStep (held.map (·.cls)) op) := by
+  cases op with
+  | acq c => simp only [heldStep, Option.some.injEq] at h; subst h; exact List.Perm.refl _
+  | acqUp c => simp only [heldStep, Option.some.injEq] at h; subst h; exact List.Perm.refl _
+  | rel c =>
+    simp only [heldStep] at h
+    split at h
+    · rename_i hmem
+      simp only [Option.some.injEq] at h; subst h
+      exact map_cls_erase_perm hmem
+    · cases h
+  | send q => simp only [heldStep, Option.some.injEq] at h; subst h; exact List.Perm.refl _
+  | recv q => simp only [heldStep, Option.some.injEq] at h; subst h; exact List.Perm.refl _
+  | trySend q => simp only [heldStep, Option.some.injEq] at h; subst h; exact List.Perm.refl _
 
-/-- at an acquire, the class wanted is ranked above everything held -/
+/-- a finished thread holds nothing -/
+theorem Thread.ok_nil {t : Thread} (h : t.ok = true) (hn : t.todo = []) : t.held = [] := by
+  have h4 := ((Thread.ok_iff t).mp h).2.2.2
+  rw [hn] at h4
+  simpa [heldAfter] using h4
+
+/-- at a plain acquire, the class wanted is ranked strictly above everything held -/
 theorem Thread.ok_acq {t : Thread} {c : Cls} {rest : List Op} (h : t.ok = true) (ht : t.todo = .acq c :: rest) :
-    ∀ x ∈ t.held, x.rank < c.rank := by
+    ∀ x ∈ t.held, x.cls.rank < c.rank := by
   have h1 := ((Thread.ok_iff t).mp h).1
   rw [ht] at h1
   simp only [okFrom, Bool.and_eq_true, List.all_eq_true, decide_eq_true_eq] at h1
-  exact h1.1
+  intro x hx
+  exact h1.1 x.cls (List.mem_map.mpr ⟨x, hx, rfl⟩)
+
+/-- at an upward acquire, nothing held is ranked above the class wanted, and the held locks of that very class
+    have smaller instance indices than the one wanted -/
+theorem Thread.ok_acqUp {t : Thread} {c : Cls} {rest : List Op} (h : t.ok = true) (ht : t.todo = .acqUp c :: rest) :
+    ∀ x ∈ t.held, x.cls.rank ≤ c.rank ∧ (x.cls = c → x.inst < t.want) := by
+  obtain ⟨h1, h2, _⟩ := (Thread.ok_iff t).mp h
+  rw [ht] at h1
+  simp only [okFrom, Bool.and_eq_true, List.all_eq_true, decide_eq_true_eq] at h1
+  intro x hx
+  exact ⟨h1.1 x.cls (List.mem_map.mpr ⟨x, hx, rfl⟩), fun hc => upOk_iff.mp h2 c rest ht x hx hc⟩
+
+/-- **Locks are taken in increasing lexicographic order**: at any acquire, every held lock is `Lock.lt` the lock
+    the thread is acquiring. -/
+theorem Thread.ok_held_lt_wanted {t : Thread} {c : Cls} {rest : List Op} (h : t.ok = true)
+    (ht : t.todo = .acq c :: rest ∨ t.todo = .acqUp c :: rest) :
+    ∀ x ∈ t.held, Lock.lt x ⟨c, t.want⟩ := by
+  intro x hx
+  unfold Lock.lt
+  rcases ht with ht | ht
+  · exact Or.inl (Thread.ok_acq h ht x hx)
+  · obtain ⟨hle, hi⟩ := Thread.ok_acqUp h ht x hx
+    by_cases heq : x.cls.rank = c.rank
+    · exact Or.inr ⟨heq, hi (Cls.rank_injective _ _ heq)⟩
+    · exact Or.inl (by simp only; omega)
+
+/-- at a release, a lock of that class is held -/
+theorem Thread.ok_rel {t : Thread} {c : Cls} {rest : List Op} (h : t.ok = true) (ht : t.todo = .rel c :: rest) :
+    ∃ inst, (⟨c, inst⟩ : Lock) ∈ t.held := by
+  have h1 := ((Thread.ok_iff t).mp h).1
+  rw [ht] at h1
+  simp only [okFrom, Bool.and_eq_true, List.contains_iff_mem] at h1
+  obtain ⟨x, hx, hc⟩ := List.mem_map.mp h1.1
+  refine ⟨x.inst, ?_⟩
+  cases x
+  simp only at hc
+  subst hc
+  exact hx
 
 /-- at a blocking send, nothing is held and the thread is not a consumer -/
 theorem Thread.ok_send {t : Thread} {q : Chan} {rest : List Op} (h : t.ok = true) (ht : t.todo = .send q :: rest) :
     t.held = [] ∧ t.consumerOf = none := by
-  obtain ⟨h1, h2, _⟩ := (Thread.ok_iff t).mp h
+  obtain ⟨h1, _, h2, _⟩ := (Thread.ok_iff t).mp h
   rw [ht] at h1 h2
-  simp only [okFrom, Bool.and_eq_true, List.isEmpty_iff] at h1
+  simp only [okFrom, Bool.and_eq_true, List.isEmpty_iff, List.map_eq_nil_iff] at h1
   refine ⟨h1.1, ?_⟩
   cases hc : t.consumerOf with
   | none => rfl
@@ -140,9 +318,9 @@ theorem Thread.ok_send {t : Thread} {q : Chan} {rest : List Op} (h : t.ok = true
 /-- at a blocking receive, nothing is held and the thread is the consumer of that very channel -/
 theorem Thread.ok_recv {t : Thread} {q : Chan} {rest : List Op} (h : t.ok = true) (ht : t.todo = .recv q :: rest) :
     t.held = [] ∧ t.consumerOf = some q := by
-  obtain ⟨h1, h2, _⟩ := (Thread.ok_iff t).mp h
+  obtain ⟨h1, _, h2, _⟩ := (Thread.ok_iff t).mp h
   rw [ht] at h1 h2
-  simp only [okFrom, Bool.and_eq_true, List.isEmpty_iff] at h1
+  simp only [okFrom, Bool.and_eq_true, List.isEmpty_iff, List.map_eq_nil_iff] at h1
   refine ⟨h1.1, ?_⟩
   cases hc : t.consumerOf with
   | none => rw [hc] at h2; simp [consOk] at h2
@@ -151,25 +329,29 @@ theorem Thread.ok_recv {t : Thread} {q : Chan} {rest : List Op} (h : t.ok = true
     simp only [consOk, List.all_cons, Bool.and_eq_true, beq_iff_eq] at h2
     rw [h2.1]
 
-/-- one step of a thread keeps `Thread.ok` and balance -/
-theorem Thread.ok_step {t : Thread} {op : Op} {rest : List Op} (h : t.ok = true)
-    (hb : heldAfter t.held t.todo = []) (ht : t.todo = op :: rest) :
-    ({ held := heldStep t.held op, todo := rest, consumerOf := t.consumerOf } : Thread).ok = true ∧
-    heldAfter (heldStep t.held op) rest = [] := by
-  obtain ⟨h1, h2, _⟩ := (Thread.ok_iff t).mp h
-  rw [ht] at h1 h2 hb
-  rw [heldAfter_step] at hb
-  refine ⟨(Thread.ok_iff _).mpr ⟨okFrom_step h1, consOk_tail h2, ?_⟩, hb⟩
-  intro hn
-  simp only at hn
-  subst hn
-  simpa [heldAfter] using hb
+/-- one step of a thread keeps `Thread.ok`, provided the announced next instance respects the upward rule -/
+theorem Thread.ok_step {t : Thread} {op : Op} {rest : List Op} {inst next : Nat} {h' : List Lock}
+    (h : t.ok = true) (ht : t.todo = op :: rest) (hs : heldStep t.held t.want inst op = some h')
+    (hup : upOk h' next rest = true) :
+    ({ held := h', todo := rest, want := next, consumerOf := t.consumerOf } : Thread).ok = true := by
+  obtain ⟨h1, _, h3, h4⟩ := (Thread.ok_iff t).mp h
+  rw [ht] at h1 h3 h4
+  rw [heldAfter_step] at h4
+  have hp := heldStep_perm hs
+  refine (Thread.ok_iff _).mpr ⟨?_, hup, consOk_tail h3, ?_⟩
+  · simp only
+    rw [okFrom_perm rest _ _ hp]
+    exact okFrom_step h1
+  · simp only
+    have := heldAfter_perm rest _ _ hp
+    rw [h4] at this
+    exact this.eq_nil
 
 /-! ## facts about `stepThread` -/
 
-theorem stepThread_eq_some {S S' : Sys} {i : Nat} (h : stepThread S i = some S') :
-    ∃ t op rest, S.threads[i]? = some t ∧ t.todo = op :: rest ∧
-      S' = { threads := S.threads.set i { held := heldStep t.held op, todo := rest, consumerOf := t.consumerOf }
+theorem stepThread_eq_some {S S' : Sys} {i inst next : Nat} (h : stepThread S i inst next = some S') :
+    ∃ t op rest h', S.threads[i]? = some t ∧ t.todo = op :: rest ∧ heldStep t.held t.want inst op = some h' ∧
+      S' = { threads := S.threads.set i { held := h', todo := rest, want := next, consumerOf := t.consumerOf }
              len := lenStep S op
              cap := S.cap } := by
   unfold stepThread at h
@@ -179,24 +361,37 @@ theorem stepThread_eq_some {S S' : Sys} {i : Nat} (h : stepThread S i = some S')
     split at h
     · cases h
     · rename_i op rest htodo
-      simp only [Option.some.injEq] at h
-      exact ⟨t, op, rest, ht, htodo, h.symm⟩
+      split at h
+      · cases h
+      · rename_i h' hs
+        simp only [Option.some.injEq] at h
+        exact ⟨t, op, rest, h', ht, htodo, hs, h.symm⟩
 
-/-- a thread that has something to do can always be stepped -/
-theorem stepThread_isSome {S : Sys} {i : Nat} {t : Thread} (ht : S.threads[i]? = some t) (hn : t.todo ≠ []) :
-    ∃ S', stepThread S i = some S' := by
+/-- a thread that keeps the discipline and has something to do can always be stepped (for a suitable choice of the
+    instance released, if it is at a release; whatever instance is announced next) -/
+theorem stepThread_isSome {S : Sys} {i : Nat} {t : Thread} (ht : S.threads[i]? = some t) (hok : t.ok = true)
+    (hn : t.todo ≠ []) : ∃ inst, ∀ next, ∃ S', stepThread S i inst next = some S' := by
   cases htodo : t.todo with
   | nil => exact absurd htodo hn
-  | cons op rest => simp [stepThread, ht, htodo]
+  | cons op rest =>
+    cases op with
+    | rel c =>
+      obtain ⟨inst, hmem⟩ := Thread.ok_rel hok htodo
+      exact ⟨inst, fun next => by simp [stepThread, ht, htodo, heldStep, hmem]⟩
+    | acq c => exact ⟨0, fun next => by simp [stepThread, ht, htodo, heldStep]⟩
+    | acqUp c => exact ⟨0, fun next => by simp [stepThread, ht, htodo, heldStep]⟩
+    | send q => exact ⟨0, fun next => by simp [stepThread, ht, htodo, heldStep]⟩
+    | recv q => exact ⟨0, fun next => by simp [stepThread, ht, htodo, heldStep]⟩
+    | trySend q => exact ⟨0, fun next => by simp [stepThread, ht, htodo, heldStep]⟩
 
 /-- the stepped thread drops exactly its first operation; every other thread is untouched -/
-theorem stepThread_todo {S S' : Sys} {i : Nat} (h : stepThread S i = some S') :
+theorem stepThread_todo {S S' : Sys} {i inst next : Nat} (h : stepThread S i inst next = some S') :
     (∃ t t', S.threads[i]? = some t ∧ S'.threads[i]? = some t' ∧ t.todo ≠ [] ∧ t'.todo = t.todo.tail ∧
-      t'.consumerOf = t.consumerOf) ∧
+      t'.consumerOf = t.consumerOf ∧ t'.want = next) ∧
     (∀ j, j ≠ i → S'.threads[j]? = S.threads[j]?) ∧ S'.cap = S.cap ∧ S'.threads.length = S.threads.length := by
-  obtain ⟨t, op, rest, ht, htodo, rfl⟩ := stepThread_eq_some h
+  obtain ⟨t, op, rest, h', ht, htodo, _, rfl⟩ := stepThread_eq_some h
   have hi : i < S.threads.length := (List.getElem?_eq_some_iff.mp ht).1
-  refine ⟨⟨t, { held := heldStep t.held op, todo := rest, consumerOf := t.consumerOf }, ht, ?_, ?_, ?_, rfl⟩,
+  refine ⟨⟨t, { held := h', todo := rest, want := next, consumerOf := t.consumerOf }, ht, ?_, ?_, ?_, rfl, rfl⟩,
     ?_, rfl, ?_⟩
   · simp [hi]
   · rw [htodo]; simp
@@ -206,29 +401,58 @@ theorem stepThread_todo {S S' : Sys} {i : Nat} (h : stepThread S i = some S') :
     rw [if_neg (Ne.symm hj)]
   · simp
 
-/-- `Thread.ok` and balance survive every step (of any thread, blocked or not) -/
-theorem stepThread_ok {S S' : Sys} {i : Nat} (hok : ∀ t ∈ S.threads, t.ok = true) (hbal : Balanced S)
-    (h : stepThread S i = some S') : (∀ t ∈ S'.threads, t.ok = true) ∧ Balanced S' := by
-  obtain ⟨t, op, rest, ht, htodo, rfl⟩ := stepThread_eq_some h
+/-- what the stepped thread holds afterwards: an acquire adds exactly the lock `⟨c, want⟩` it was acquiring, a
+    release removes exactly the lock `⟨c, inst⟩`, channel operations change nothing -/
+theorem stepThread_held {S S' : Sys} {i inst next : Nat} (h : stepThread S i inst next = some S') :
+    ∃ t t' op rest, S.threads[i]? = some t ∧ S'.threads[i]? = some t' ∧ t.todo = op :: rest ∧
+      (match op with
+       | .acq c => t'.held = ⟨c, t.want⟩ :: t.held
+       | .acqUp c => t'.held = ⟨c, t.want⟩ :: t.held
+       | .rel c => (⟨c, inst⟩ : Lock) ∈ t.held ∧ t'.held = t.held.erase ⟨c, inst⟩
+       | _ => t'.held = t.held) := by
+  obtain ⟨t, op, rest, h', ht, htodo, hs, rfl⟩ := stepThread_eq_some h
+  have hi : i < S.threads.length := (List.getElem?_eq_some_iff.mp ht).1
+  refine ⟨t, { held := h', todo := rest, want := next, consumerOf := t.consumerOf }, op, rest, ht, by simp [hi],
+    htodo, ?_⟩
+  cases op with
+  | rel c =>
+    simp only [heldStep] at hs
+    split at hs
+    · rename_i hmem
+      simp only [Option.some.injEq] at hs
+      exact ⟨hmem, hs.symm⟩
+    · cases hs
+  | acq c => simp only [heldStep, Option.some.injEq] at hs; exact hs.symm
+  | acqUp c => simp only [heldStep, Option.some.injEq] at hs; exact hs.symm
+  | send q => simp only [heldStep, Option.some.injEq] at hs; exact hs.symm
+  | recv q => simp only [heldStep, Option.some.injEq] at hs; exact hs.symm
+  | trySend q => simp only [heldStep, Option.some.injEq] at hs; exact hs.symm
+
+/-- `Thread.ok` survives every step (of any thread, blocked or not), provided the instance announced for the
+    stepped thread's next acquisition respects the upward rule: if its new head is `acqUp c`, every lock of class
+    `c` it holds has an instance index below `next`. -/
+theorem stepThread_ok {S S' : Sys} {i inst next : Nat} (hok : ∀ t ∈ S.threads, t.ok = true)
+    (h : stepThread S i inst next = some S')
+    (hnext : ∀ t', S'.threads[i]? = some t' → ∀ c rest, t'.todo = .acqUp c :: rest →
+      ∀ x ∈ t'.held, x.cls = c → x.inst < next) :
+    ∀ t ∈ S'.threads, t.ok = true := by
+  obtain ⟨t, op, rest, h', ht, htodo, hs, rfl⟩ := stepThread_eq_some h
   have hmem := List.mem_of_getElem? ht
-  obtain ⟨h1, h2⟩ := Thread.ok_step (hok t hmem) (hbal t hmem) htodo
-  constructor
-  · intro x hx
-    simp only at hx
-    rcases List.mem_or_eq_of_mem_set hx with hx | hx
-    · exact hok x hx
-    · rw [hx]; exact h1
-  · intro x hx
-    simp only at hx
-    rcases List.mem_or_eq_of_mem_set hx with hx | hx
-    · exact hbal x hx
-    · rw [hx]; exact h2
+  have hi : i < S.threads.length := (List.getElem?_eq_some_iff.mp ht).1
+  have hup : upOk h' next rest = true :=
+    upOk_iff.mpr (hnext { held := h', todo := rest, want := next, consumerOf := t.consumerOf } (by simp [hi]))
+  have h1 := Thread.ok_step (hok t hmem) htodo hs hup
+  intro x hx
+  simp only at hx
+  rcases List.mem_or_eq_of_mem_set hx with hx | hx
+  · exact hok x hx
+  · rw [hx]; exact h1
 
 /-- After a schedule, every thread has dropped exactly as many operations as it was scheduled. -/
-theorem run_todo (i : Nat) : ∀ (sched : List Nat) (S S' : Sys) (t : Thread), run S sched = some S' →
+theorem run_todo (i : Nat) : ∀ (sched : List (Nat × Nat × Nat)) (S S' : Sys) (t : Thread), run S sched = some S' →
     S.threads[i]? = some t →
-    ∃ t', S'.threads[i]? = some t' ∧ t'.todo = t.todo.drop (sched.count i) ∧ sched.count i ≤ t.todo.length ∧
-      t'.consumerOf = t.consumerOf := by
+    ∃ t', S'.threads[i]? = some t' ∧ t'.todo = t.todo.drop ((sched.map (·.1)).count i) ∧
+      (sched.map (·.1)).count i ≤ t.todo.length ∧ t'.consumerOf = t.consumerOf := by
   intro sched
   induction sched with
   | nil =>
@@ -236,46 +460,81 @@ theorem run_todo (i : Nat) : ∀ (sched : List Nat) (S S' : Sys) (t : Thread), r
     simp only [run, Option.some.injEq] at h
     subst h
     exact ⟨t, ht, by simp, by simp, rfl⟩
-  | cons j rest ih =>
+  | cons a rest ih =>
     intro S S' t h ht
+    obtain ⟨j, ri, nx⟩ := a
     simp only [run] at h
-    cases hs : stepThread S j with
+    cases hs : stepThread S j ri nx with
     | none => simp [hs] at h
     | some S1 =>
       simp only [hs, Option.bind_some] at h
-      obtain ⟨⟨u, u', hu, hu', hne, htail, hcons⟩, hother, _, _⟩ := stepThread_todo hs
+      obtain ⟨⟨u, u', hu, hu', hne, htail, hcons, _⟩, hother, _, _⟩ := stepThread_todo hs
       by_cases hji : j = i
       · subst hji
         rw [hu] at ht
         cases ht
         obtain ⟨t', ht', hdrop, hle, hc⟩ := ih S1 S' u' h hu'
         refine ⟨t', ht', ?_, ?_, hc.trans hcons⟩
-        · rw [hdrop, htail, List.count_cons_self]
+        · rw [hdrop, htail, List.map_cons, List.count_cons_self]
           cases hl : t.todo with
           | nil => exact absurd hl hne
           | cons op r => simp
         · rw [htail] at hle
-          rw [List.count_cons_self]
+          rw [List.map_cons, List.count_cons_self]
           cases hl : t.todo with
           | nil => exact absurd hl hne
           | cons op r => rw [hl] at hle; simp at hle ⊢; omega
       · have ht1 : S1.threads[i]? = some t := by rw [hother i (Ne.symm hji)]; exact ht
         obtain ⟨t', ht', hdrop, hle, hc⟩ := ih S1 S' t h ht1
-        have hcount : (j :: rest).count i = rest.count i := by
-          rw [List.count_cons]; simp [hji]
+        have hcount : (((j, ri, nx) :: rest).map (·.1)).count i = (rest.map (·.1)).count i := by
+          rw [List.map_cons, List.count_cons]; simp [hji]
         exact ⟨t', ht', by rw [hcount]; exact hdrop, by rw [hcount]; exact hle, hc⟩
+
+/-- `Thread.ok` along a whole schedule: if after every prefix of the schedule every thread's announced instance
+    respects the upward rule (`upOk`), every thread is `ok` at the end. -/
+theorem run_ok : ∀ (sched : List (Nat × Nat × Nat)) (S S' : Sys), (∀ t ∈ S.threads, t.ok = true) →
+    (∀ k Sk, run S (sched.take k) = some Sk → ∀ t ∈ Sk.threads, upOk t.held t.want t.todo = true) →
+    run S sched = some S' → ∀ t ∈ S'.threads, t.ok = true := by
+  intro sched
+  induction sched with
+  | nil =>
+    intro S S' hok _ h
+    simp only [run, Option.some.injEq] at h
+    subst h
+    exact hok
+  | cons a rest ih =>
+    intro S S' hok hup h
+    simp only [run] at h
+    cases hs : stepThread S a.1 a.2.1 a.2.2 with
+    | none => simp [hs] at h
+    | some S1 =>
+      simp only [hs, Option.bind_some] at h
+      have hup1 : ∀ t ∈ S1.threads, upOk t.held t.want t.todo = true :=
+        hup 1 S1 (by simp [run, hs])
+      have hok1 : ∀ t ∈ S1.threads, t.ok = true := by
+        apply stepThread_ok hok hs
+        intro t' ht'
+        exact upOk_iff.mp ((stepThread_todo hs).1.elim fun u hu => by
+          obtain ⟨u', _, hu', _, _, _, hw⟩ := hu
+          rw [ht'] at hu'; cases hu'
+          rw [← hw]
+          exact hup1 t' (List.mem_of_getElem? ht'))
+      apply ih S1 S' hok1 ?_ h
+      intro k Sk hk
+      exact hup (k + 1) Sk (by simp [run, hs, hk])
 
 /-! ## the wait-chain arguments -/
 
 /-- A set `P` of threads that wait on one another: every member is kept waiting by the implementation; a member
-    that waits for a lock of class `c` waits for a MEMBER that holds one; a member that waits for room in queue
-    `q` waits for a MEMBER that is the (unfinished) consumer of `q`. Every cycle of lock or queue waits, and
-    every set of threads that are stuck for ever, is such a set (members waiting at `recv` need no justification
-    here: the theorem shows they are the only possible members). -/
+    that waits for the lock `⟨c, want⟩` (at `acq c` or `acqUp c`) waits for a MEMBER that holds that very lock; a
+    member that waits for room in queue `q` waits for a MEMBER that is the (unfinished) consumer of `q`. Every
+    cycle of lock or queue waits, and every set of threads that are stuck for ever, is such a set (members waiting
+    at `recv` need no justification here: the theorem shows they are the only possible members). -/
 structure WaitClosed (S : Sys) (blocked : Nat → Prop) (P : Nat → Prop) : Prop where
   all_blocked : ∀ i, P i → blocked i
   acq_waits_in : ∀ (i : Nat) (t : Thread) (c : Cls) (rest : List Op), P i → S.threads[i]? = some t →
-    t.todo = .acq c :: rest → ∃ (j : Nat) (u : Thread), P j ∧ S.threads[j]? = some u ∧ c ∈ u.held
+    (t.todo = .acq c :: rest ∨ t.todo = .acqUp c :: rest) →
+    ∃ (j : Nat) (u : Thread), P j ∧ S.threads[j]? = some u ∧ (⟨c, t.want⟩ : Lock) ∈ u.held
   send_waits_in : ∀ (i : Nat) (t : Thread) (q : Chan) (rest : List Op), P i → S.threads[i]? = some t →
     t.todo = .send q :: rest →
     ∃ (j : Nat) (u : Thread), P j ∧ S.threads[j]? = some u ∧ u.consumerOf = some q ∧ u.todo ≠ []
@@ -283,43 +542,69 @@ structure WaitClosed (S : Sys) (blocked : Nat → Prop) (P : Nat → Prop) : Pro
 section chains
 variable {S : Sys} {blocked : Nat → Prop} {P : Nat → Prop}
 
+/-- The member in front of a member waiting at an acquire waits at an acquire too, for a lock that is strictly
+    greater in the lexicographic order: it holds the wanted lock, so it is unfinished; it is blocked, so it is not at
+    a release or a `trySend`; it holds something, so it is not at `send` / `recv`; and the lock it holds is
+    `Lock.lt` the lock it wants (`Thread.ok_held_lt_wanted`). -/
+theorem wait_chain_up (hok : ∀ t ∈ S.threads, t.ok = true) (bs : BlockedSpec S blocked)
+    (wc : WaitClosed S blocked P) {i : Nat} {t : Thread} {c : Cls} {rest : List Op} (hpi : P i)
+    (ht : S.threads[i]? = some t) (htodo : t.todo = .acq c :: rest ∨ t.todo = .acqUp c :: rest) :
+    ∃ (j : Nat) (u : Thread) (c' : Cls) (r : List Op), P j ∧ S.threads[j]? = some u ∧
+      (u.todo = .acq c' :: r ∨ u.todo = .acqUp c' :: r) ∧ Lock.lt ⟨c, t.want⟩ ⟨c', u.want⟩ := by
+  obtain ⟨j, u, hpj, hu, hcu⟩ := wc.acq_waits_in i t c rest hpi ht htodo
+  have huok := hok u (List.mem_of_getElem? hu)
+  have hbj : blocked j := wc.all_blocked j hpj
+  cases hutodo : u.todo with
+  | nil =>
+    rw [Thread.ok_nil huok hutodo] at hcu
+    simp at hcu
+  | cons op r =>
+    cases op with
+    | acq c' => exact ⟨j, u, c', r, hpj, hu, Or.inl hutodo, Thread.ok_held_lt_wanted huok (Or.inl hutodo) _ hcu⟩
+    | acqUp c' => exact ⟨j, u, c', r, hpj, hu, Or.inr hutodo, Thread.ok_held_lt_wanted huok (Or.inr hutodo) _ hcu⟩
+    | rel c' => exact (bs.rel_free j u c' r hu hutodo hbj).elim
+    | trySend q => exact (bs.try_free j u q r hu hutodo hbj).elim
+    | send q =>
+      rw [(Thread.ok_send huok hutodo).1] at hcu
+      simp at hcu
+    | recv q =>
+      rw [(Thread.ok_recv huok hutodo).1] at hcu
+      simp at hcu
+
 /-- Lock chains end: no member of a wait-closed set waits at an acquire.
-    (Induction on `8 - rank`: the member in front of a thread waiting for class `c` holds something, so it is
-    unfinished; it is blocked, so by `BlockedSpec` and the discipline it can only be waiting for a class ranked
-    strictly above `c`.) -/
+    (Lexicographic induction on `(8 - rank, maxWant + 1 - want)`: by `wait_chain_up` the member in front waits for a
+    strictly greater lock, i.e. either for a class of greater rank — ranks are below 8 — or for a greater instance
+    of the same class — the instances wanted by the finitely many threads are bounded by `maxWant S.threads`.
+    Equivalently: the member whose wanted lock is `Lock.lt`-maximal cannot exist.) -/
 theorem no_blocked_acq (hok : ∀ t ∈ S.threads, t.ok = true) (bs : BlockedSpec S blocked)
     (wc : WaitClosed S blocked P) :
-    ∀ (n : Nat) (i : Nat) (t : Thread) (c : Cls) (rest : List Op), 8 - c.rank ≤ n → P i →
-      S.threads[i]? = some t → t.todo = .acq c :: rest → False := by
+    ∀ (n m : Nat) (i : Nat) (t : Thread) (c : Cls) (rest : List Op), 8 - c.rank ≤ n →
+      maxWant S.threads + 1 - t.want ≤ m → P i → S.threads[i]? = some t →
+      (t.todo = .acq c :: rest ∨ t.todo = .acqUp c :: rest) → False := by
   intro n
   induction n with
   | zero =>
-    intro i t c rest hn _ _ _
+    intro m i t c rest hn _ _ _ _
     have := Cls.rank_lt_8 c
     omega
-  | succ n ih =>
-    intro i t c rest hn hpi ht htodo
-    obtain ⟨j, u, hpj, hu, hcu⟩ := wc.acq_waits_in i t c rest hpi ht htodo
-    have huok := hok u (List.mem_of_getElem? hu)
-    have hbj : blocked j := wc.all_blocked j hpj
-    cases hutodo : u.todo with
-    | nil =>
-      rw [Thread.ok_nil huok hutodo] at hcu
-      simp at hcu
-    | cons op r =>
-      cases op with
-      | acq c' =>
-        have hlt := Thread.ok_acq huok hutodo c hcu
-        have := Cls.rank_lt_8 c'
-        exact ih j u c' r (by omega) hpj hu hutodo
-      | rel c' => exact bs.rel_free j u c' r hu hutodo hbj
-      | trySend q => exact bs.try_free j u q r hu hutodo hbj
-      | send q =>
-        rw [(Thread.ok_send huok hutodo).1] at hcu
-        simp at hcu
-      | recv q =>
-        rw [(Thread.ok_recv huok hutodo).1] at hcu
-        simp at hcu
+  | succ n ihn =>
+    intro m
+    induction m with
+    | zero =>
+      intro i t c rest _ hm _ ht _
+      have := le_maxWant (List.mem_of_getElem? ht)
+      omega
+    | succ m ihm =>
+      intro i t c rest hn hm hpi ht htodo
+      obtain ⟨j, u, c', r, hpj, hu, hutodo, hlt⟩ := wait_chain_up hok bs wc hpi ht htodo
+      have hr := Cls.rank_lt_8 c'
+      have hw := le_maxWant (List.mem_of_getElem? hu)
+      have hwt := le_maxWant (List.mem_of_getElem? ht)
+      unfold Lock.lt at hlt
+      simp only at hlt
+      rcases hlt with hlt | ⟨heq, hlt⟩
+      · exact ihn (maxWant S.threads + 1 - u.want) j u c' r (by omega) (Nat.le_refl _) hpj hu hutodo
+      · exact ihm j u c' r (by omega) (by omega) hpj hu hutodo
 
 /-- No cycle of lock or queue waits: every member of a wait-closed set is a channel consumer waiting on its own
     empty queue and holding nothing. -/
@@ -327,7 +612,8 @@ theorem waitClosed_idle (hok : ∀ t ∈ S.threads, t.ok = true) (hcap : ∀ q, 
     (bs : BlockedSpec S blocked) (wc : WaitClosed S blocked P) :
     ∀ (i : Nat) (t : Thread), P i → S.threads[i]? = some t →
       ∃ q rest, t.todo = .recv q :: rest ∧ t.consumerOf = some q ∧ S.len q = 0 ∧ t.held = [] := by
-  have hacq := fun i t c rest => no_blocked_acq hok bs wc (8 - c.rank) i t c rest (Nat.le_refl _)
+  have hacq := fun (i : Nat) (t : Thread) (c : Cls) (rest : List Op) =>
+    no_blocked_acq hok bs wc (8 - c.rank) (maxWant S.threads + 1 - t.want) i t c rest (Nat.le_refl _) (Nat.le_refl _)
   intro i t hpi ht
   have hbi := wc.all_blocked i hpi
   have htok := hok t (List.mem_of_getElem? ht)
@@ -335,7 +621,8 @@ theorem waitClosed_idle (hok : ∀ t ∈ S.threads, t.ok = true) (hcap : ∀ q, 
   | nil => exact (bs.idle_free i t ht htodo hbi).elim
   | cons op rest =>
     cases op with
-    | acq c => exact (hacq i t c rest hpi ht htodo).elim
+    | acq c => exact (hacq i t c rest hpi ht (Or.inl htodo)).elim
+    | acqUp c => exact (hacq i t c rest hpi ht (Or.inr htodo)).elim
     | rel c => exact (bs.rel_free i t c rest ht htodo hbi).elim
     | trySend q => exact (bs.try_free i t q rest ht htodo hbi).elim
     | recv q =>
@@ -352,7 +639,8 @@ theorem waitClosed_idle (hok : ∀ t ∈ S.threads, t.ok = true) (hcap : ∀ q, 
       | nil => exact hune hutodo
       | cons op r =>
         cases op with
-        | acq c => exact hacq j u c r hpj hu hutodo
+        | acq c => exact hacq j u c r hpj hu (Or.inl hutodo)
+        | acqUp c => exact hacq j u c r hpj hu (Or.inr hutodo)
         | rel c => exact bs.rel_free j u c r hu hutodo hbj
         | trySend q' => exact bs.try_free j u q' r hu hutodo hbj
         | send q' =>
@@ -374,7 +662,8 @@ theorem waitClosed_of_all_blocked (wf : WF S) (bs : BlockedSpec S blocked)
   · rintro i ⟨t, ht, hne⟩
     exact hall i t ht hne
   · rintro i t c rest ⟨_, _, _⟩ ht htodo
-    obtain ⟨j, u, _, hu, hcu⟩ := bs.acq_has_holder i t c rest ht htodo (hall i t ht (by rw [htodo]; simp))
+    have hne : t.todo ≠ [] := by rcases htodo with h | h <;> (rw [h]; simp)
+    obtain ⟨j, u, _, hu, hcu⟩ := bs.acq_has_holder i t c rest ht htodo (hall i t ht hne)
     refine ⟨j, u, ⟨u, hu, ?_⟩, hu, hcu⟩
     intro hnil
     rw [Thread.ok_nil (wf.ok u (List.mem_of_getElem? hu)) hnil] at hcu
@@ -399,25 +688,52 @@ end chains
 section examples
 open Cls Op Chan
 
-/-- A moment of the real crate: a client in the middle of `put_or_update (present key)` about to read the TTL
-    shard, the command worker in `UpdateWeight` holding a `kwShard` guard and wanting `wu`, the sweeper holding a
-    TTL shard (write) and `wu`. Client and worker both wait for the sweeper; the sweeper can move. -/
+/-- A moment of the real crate: a client in the middle of `put_or_update (present key)` about to read TTL shard 0,
+    the command worker in `UpdateWeight` holding the guard of `kwShard` instance 0 and wanting `wu`, the sweeper
+    holding TTL shard 0 (write) and `wu`, about to take store shard 5. Client and worker both wait for the sweeper;
+    the sweeper can move. -/
 def exampleSys : Sys where
   threads := [
-    { held := [], todo := [acq ttlShard, rel ttlShard, acq ttlShard, rel ttlShard, send cmd], consumerOf := none },
-    { held := [kwShard], todo := [acq wu, rel wu, rel kwShard, acq ackStatus, rel ackStatus, acq ackWaker, rel ackWaker],
+    { held := [], todo := [acq ttlShard, rel ttlShard, acq ttlShard, rel ttlShard, send cmd], want := 0,
+      consumerOf := none },
+    { held := [⟨kwShard, 0⟩],
+      todo := [acq wu, rel wu, rel kwShard, acq ackStatus, rel ackStatus, acq ackWaker, rel ackWaker], want := 0,
       consumerOf := some cmd },
-    { held := [wu, ttlShard], todo := [acq storeShard, rel storeShard, rel wu, rel ttlShard], consumerOf := none }]
+    { held := [⟨wu, 0⟩, ⟨ttlShard, 0⟩], todo := [acq storeShard, rel storeShard, rel wu, rel ttlShard], want := 5,
+      consumerOf := none }]
   len := fun _ => 0
   cap := fun q => match q with | .cmd => 4 | .buf => 8
+
+/-- The rest of the program "worker: Put / PutWithTTL" from the step of the sample iteration where the DashMap
+    iterator, holding the read lock of one `kwShard` instance, takes the next one (operations 10.. of the program). -/
+def sampleTodo : List Op :=
+  [acqUp kwShard, rel kwShard, acq af, rel af, rel kwShard,
+   acq kwShard, rel kwShard, acq wu, acq storeShard, rel storeShard, rel wu,
+   acq wu, rel wu, acq kwShard, acq af, rel af, acqUp kwShard, rel kwShard, rel kwShard,
+   acq kwShard, rel kwShard, acq wu, rel wu,
+   acq storeShard, rel storeShard, acq ttlShard, rel ttlShard,
+   acq ackStatus, rel ackStatus, acq ackWaker, rel ackWaker]
+
+/-- the command worker inside the sample iteration: it holds `kwShard` instance 0 and is acquiring instance `want` -/
+def sampleThread (want : Nat) : Thread :=
+  { held := [⟨kwShard, 0⟩], todo := sampleTodo, want := want, consumerOf := some cmd }
 
 /-- (b) The classical deadlock is REJECTED by the check: two threads take `wu` and `kwShard` in opposite orders,
     each holds one and wants the other. The one that holds `wu` and wants `kwShard` violates the rank order
     (`kwShard` is ranked below `wu`); the other one is the crate's `UpdateWeight` order and is fine. -/
 def badSys : Sys where
   threads := [
-    { held := [wu], todo := [acq kwShard, rel kwShard, rel wu], consumerOf := none },
-    { held := [kwShard], todo := [acq wu, rel wu, rel kwShard], consumerOf := none }]
+    { held := [⟨wu, 0⟩], todo := [acq kwShard, rel kwShard, rel wu], want := 0, consumerOf := none },
+    { held := [⟨kwShard, 0⟩], todo := [acq wu, rel wu, rel kwShard], want := 0, consumerOf := none }]
+  len := fun _ => 0
+  cap := fun _ => 1
+
+/-- (b') The same-class deadlock is rejected too: two iterators over the `kwShard` shards in opposite directions,
+    one holds instance 0 and wants 1, the other holds 1 and wants 0: the second is not going upward. -/
+def badUpSys : Sys where
+  threads := [
+    { held := [⟨kwShard, 0⟩], todo := [acqUp kwShard, rel kwShard, rel kwShard], want := 1, consumerOf := none },
+    { held := [⟨kwShard, 1⟩], todo := [acqUp kwShard, rel kwShard, rel kwShard], want := 0, consumerOf := none }]
   len := fun _ => 0
   cap := fun _ => 1
 
